@@ -1,0 +1,73 @@
+//go:build verif
+
+// Contracts for package cluster (comment-only; compiled only with the build tag "verif",
+// read by /verif/engine). Property C19.
+
+package cluster
+
+//@ import registry "github.com/lni/dragonboat/v4/internal/registry"
+
+// The merge the property statement describes: membership of the highest configuration-change
+// index; the leader announced with the highest term; an update without leader never replaces one.
+//@ pure func specMerge(c registry.ShardView, u registry.ShardView) registry.ShardView = registry.ShardView{ShardID: c.ShardID, Replicas: (c.ConfigChangeIndex < u.ConfigChangeIndex ? u.Replicas : c.Replicas), ConfigChangeIndex: (c.ConfigChangeIndex < u.ConfigChangeIndex ? u.ConfigChangeIndex : c.ConfigChangeIndex), LeaderID: (u.LeaderID != 0 && (c.LeaderID == 0 || u.Term > c.Term) ? u.LeaderID : c.LeaderID), Term: (u.LeaderID != 0 && (c.LeaderID == 0 || u.Term > c.Term) ? u.Term : c.Term)}
+
+// view invariant of one entry: no leader <==> term 0 is kept (leaderless entries carry no term)
+//@ pure func entryOK(s registry.ShardView) bool = s.LeaderID == 0 ==> s.Term == 0
+
+// the entry of shard id in a view (absent == the zero entry for that id)
+//@ pure func entryOf(v *shardView, id uint64) registry.ShardView = has(v.shards, id) ? v.shards[id] : registry.ShardView{ShardID: id}
+
+// Raft facts about two updates of the same shard: one leader per term, one membership per
+// configuration-change index.
+//@ pure func consistent(a registry.ShardView, b registry.ShardView) bool = (a.LeaderID != 0 && b.LeaderID != 0 && a.Term == b.Term ==> a.LeaderID == b.LeaderID) && (a.ConfigChangeIndex == b.ConfigChangeIndex ==> a.Replicas == b.Replicas)
+
+//@ func mergeShardInfo
+//@   ensures [C19.fn] result == specMerge(current, update)
+//@   modifies nothing
+
+//@ lemma mergeComm(c registry.ShardView, a registry.ShardView, b registry.ShardView)
+//@   requires consistent(a, b) && consistent(c, a) && consistent(c, b) && entryOK(c)
+//@   ensures [C19.comm] specMerge(specMerge(c, a), b) == specMerge(specMerge(c, b), a)
+
+//@ lemma mergeIdem(c registry.ShardView, a registry.ShardView)
+//@   ensures [C19.idem] specMerge(specMerge(c, a), a) == specMerge(c, a)
+
+//@ lemma mergeMono(c registry.ShardView, u registry.ShardView)
+//@   requires entryOK(c)
+//@   ensures [C19.mono] specMerge(c, u).Term >= c.Term && specMerge(c, u).ConfigChangeIndex >= c.ConfigChangeIndex
+//@   ensures [C19.ok]   entryOK(specMerge(c, u))
+//@   ensures [C19.noreg] u.LeaderID == 0 || (c.LeaderID != 0 && u.Term <= c.Term) ==> specMerge(c, u).LeaderID == c.LeaderID && specMerge(c, u).Term == c.Term
+//@   ensures [C19.max]  u.LeaderID != 0 ==> specMerge(c, u).Term >= u.Term || c.LeaderID == 0
+//@   ensures [C19.keep] specMerge(c, u).ShardID == c.ShardID
+
+// consistency is inherited by merged entries, so the fold over any sequence stays consistent with the rest
+//@ lemma mergeConsistent(c registry.ShardView, a registry.ShardView, b registry.ShardView)
+//@   requires consistent(a, b) && consistent(c, b)
+//@   ensures [C19.cons] consistent(specMerge(c, a), b)
+
+// update: every iteration merges exactly update u into exactly the entry of u's shard and leaves all
+// other entries alone (step clauses); entry invariant and monotonicity are loop invariants.
+//@ func (*shardView).update
+//@   requires v != nil && v.shards != nil
+//@   requires [ok] forall id uint64 :: entryOK(entryOf(v, id)) && entryOf(v, id).ShardID == id
+//@   ensures  [C19.ok]   forall id uint64 :: entryOK(entryOf(v, id)) && entryOf(v, id).ShardID == id
+//@   ensures  [C19.mono] forall id uint64 :: entryOf(v, id).Term >= old(entryOf(v, id).Term) && entryOf(v, id).ConfigChangeIndex >= old(entryOf(v, id).ConfigChangeIndex)
+//@   ensures  [C19.none] len(updates) == 0 ==> forall id uint64 :: entryOf(v, id) == old(entryOf(v, id))
+//@   modifies elems(v.shards)
+//@   loop 0 invariant v.shards == old(v.shards) && -1 <= rangeindex && rangeindex < len(updates) || (len(updates) == 0 && rangeindex == -1)
+//@   loop 0 invariant forall id uint64 :: entryOK(entryOf(v, id)) && entryOf(v, id).ShardID == id
+//@   loop 0 invariant forall id uint64 :: entryOf(v, id).Term >= old(entryOf(v, id).Term) && entryOf(v, id).ConfigChangeIndex >= old(entryOf(v, id).ConfigChangeIndex)
+//@   loop 0 invariant rangeindex == -1 ==> forall id uint64 :: entryOf(v, id) == old(entryOf(v, id))
+//@   loop 0 step [C19.step.merge] entryOf(v, updates[rangeindex+1].ShardID) == specMerge(prev(entryOf(v, updates[rangeindex+1].ShardID)), updates[rangeindex+1])
+//@   loop 0 step [C19.step.frame] forall id uint64 :: id != updates[rangeindex+1].ShardID ==> entryOf(v, id) == prev(entryOf(v, id))
+
+//@ func (*shardView).shardInfo
+//@   requires v != nil
+//@   ensures [C19.read] has(v.shards, id) ==> result == v.shards[id]
+//@   ensures !has(v.shards, id) ==> result == registry.ShardView{}
+//@   modifies nothing
+
+//@ func newView
+//@   ensures result != nil && result.shards != nil && fresh(result)
+//@   ensures forall id uint64 :: !has(result.shards, id)
+//@   modifies nothing
